@@ -21,7 +21,7 @@ extern "C" {
 namespace {
 
 enum Kind { K_MH1 = 0, K_MH256 = 1, K_MUR = 2, K_ROLL = 3, K_GCM = 4, K_N = 5 };
-static const char *kind_name[K_N] = { "mh_sha1", "mh_sha256", "mh_sha1_murmur3", "rolling_hash2", "aes_gcm" };
+static const char *kind_name[K_N] = { "mh_sha1", "mh_sha256", "mh_sha1_murmur3_x64_128", "rolling_hash2", "aes_gcm" };
 enum { OP_DELIVER = 1, OP_FINALIZE = 2, OP_RESTART = 3 };
 
 static const char *mh_fams[5] = { "base", "sse", "avx", "avx2", "avx512" };
